@@ -92,9 +92,20 @@ func (s c11Spec) ops(w *model.World) (out []opx) {
 			out = append(out, txnOp(w, []model.Act{{Op: "del", Off: offs[i]}}, false))
 		}
 	}
+	// write and delete of one row in one transaction: the row is gone, and so is what was written
+	if len(offs) > 0 {
+		o := txnOp(w, []model.Act{{Op: "put", Off: offs[0], W: []model.Write{{Col: "v", V: model.Val{N: 9}}, {Col: "s", V: model.Val{S: "w"}}}}, {Op: "del", Off: offs[0]}}, false)
+		o.tag = "write and delete of one row in one transaction"
+		out = append(out, o)
+	}
 	// delete then insert in one transaction
 	if len(offs) > 0 {
 		out = append(out, txnOp(w, []model.Act{{Op: "del", Off: offs[0]}, {Op: "insert", Probe: true, W: merged}}, false))
+	}
+	// deletes in two blocks and an insert in one transaction (row markers of one block
+	// in two sections of the buffer, the later one holding no delete)
+	if n := len(offs); n >= 2 && offs[0]>>14 != offs[n-1]>>14 {
+		out = append(out, txnOp(w, []model.Act{{Op: "del", Off: offs[0]}, {Op: "del", Off: offs[n-1]}, {Op: "insert", Probe: true, W: full}}, false))
 	}
 	out = append(out, txnOp(w, []model.Act{{Op: "bulk", N: 64, W: full}}, false))
 	if len(offs) >= 2 {
@@ -141,13 +152,13 @@ func c11SeqUnits(tier string) (units []eng.Unit) {
 			specs = append(specs, c11Spec{preset: "empty", cap: cp, depth: 4})
 		}
 		specs = append(specs, c11Spec{preset: "word-edge", cap: 1024, depth: 4}, c11Spec{preset: "block-edge", cap: 1024, depth: 3},
-			c11Spec{preset: "sparse-3", cap: 1024, depth: 3})
+			c11Spec{preset: "sparse-3", cap: 1024, depth: 3}, c11Spec{preset: "dense-2+1", cap: 1024, depth: 4})
 	} else {
 		for _, cp := range []int{1, 64, 1024, 20000} {
 			specs = append(specs, c11Spec{preset: "empty", cap: cp, depth: 5, probe: true}, c11Spec{preset: "word-edge", cap: cp, depth: 4, probe: true})
 		}
 		specs = append(specs, c11Spec{preset: "empty", cap: 1024, depth: 6, probe: true}, c11Spec{preset: "block-edge", cap: 1024, depth: 4, probe: true},
-			c11Spec{preset: "sparse-3", cap: 1024, depth: 4, probe: true})
+			c11Spec{preset: "sparse-3", cap: 1024, depth: 4, probe: true}, c11Spec{preset: "dense-2+1", cap: 1024, depth: 5, probe: true})
 	}
 	for _, s := range specs {
 		s := s
